@@ -453,6 +453,20 @@ theorem smear_none_is_smear_at_drawn_angle (img : Arr ℝ) (dist ps os u : ℝ) 
   unfold smearNone smear
   rw [hk]
 
+/-- **`smear(angle=None)` has the properties of `smear`.** Whatever direction the global generator draws (`u ∈ ℝ`, in particular every
+`u ∈ [0, 1)`): the output is non-negative for every image of non-negative total, keeps the total of every image, and commutes
+with circular translation — `smear_none_is_smear_at_drawn_angle` composed with `blur_nonneg`, `renormalised_total_preserved`,
+`blur_commutes_with_roll`. -/
+theorem smear_none_nonneg_total_roll (img : Arr ℝ) (m n : ℕ) (hm : img.s0 = m) (hn : img.s1 = n) (hm0 : 0 < m) (hn0 : 0 < n)
+    (dist ps os u : ℝ) (a b i j : ℤ) :
+    (0 ≤ arrSum img → 0 ≤ (smearNone ℂ img dist ps os u).get i j) ∧
+    arrSum (smearNone ℂ img dist ps os u) = arrSum img ∧
+    (smearNone ℂ (roll img a b) dist ps os u).get i j = (roll (smearNone ℂ img dist ps os u) a b).get i j := by
+  rw [smear_none_is_smear_at_drawn_angle, smear_none_is_smear_at_drawn_angle]
+  exact ⟨fun hS => (blur_nonneg img os 0 dist (360 * u) ps hS i j).2.2,
+    (renormalised_total_preserved img m n hm hn hm0 hn0 0 dist (360 * u) ps os).2,
+    (blur_commutes_with_roll img m n hm hn hm0 hn0 a b os 0 dist (360 * u) ps i j).2.2⟩
+
 /-- **`pixelate` = `pixel` then `rescale` by `1/oversample`**: the wiring regenerated from `detector.pixelate` gives the output
 shape `(⌈s0/os⌉, ⌈s1/os⌉)` and calls the rescale with spline order 3, mode `nearest`, `unitary=True` (the interpolation itself —
 `scipy.ndimage.map_coordinates` — is not modelled; total and values are evaluated by the oracle). -/
